@@ -22,6 +22,8 @@ def plan(tier, seed):
         specs.append(dict(name="grid-%d" % p, mode="interp", what="grid", part=p, parts=parts, fills=fills, seed=[seed, 10, p]))
         specs.append(dict(name="multi-%d" % p, mode="interp", what="multi", n=tuples // parts, seed=[seed, 110, p]))
     specs.append(dict(name="frontend", mode="interp", what="frontend", n=3 if tier == "quick" else 12, seed=[seed, 1010, 0]))
+    for p in range(3):
+        specs.append(dict(name="large-%d" % p, mode="interp", what="large", part=p, parts=3, seed=[seed, 1011, p]))
     return specs
 
 
@@ -218,7 +220,31 @@ def run_frontend(spec, res):
     res.count("frontend_reshape_runs", len(cases))
 
 
+def run_large(spec, res):
+    """Shapes far beyond the small grid (size-threshold code paths): long series, many sensors, wide windows."""
+    from fast_ticc import data_preparation as dp
+    rng = np.random.default_rng(spec["seed"])
+    shapes = [(1000, 1, 1), (1024, 3, 2), (5000, 2, 7), (20000, 1, 3), (4097, 8, 5), (300, 64, 2), (257, 130, 1), (600, 6, 40), (70, 3, 64),
+              (65537, 1, 2), (2049, 17, 9)]
+    for si, (T, N, W) in enumerate(shapes):
+        if si % spec["parts"] != spec["part"]:
+            continue
+        kind = FILLS[si % 5]
+        case = dict(what="grid", T=T, W=W, N=N, fill=kind, rng=[int(v) for v in spec["seed"]] + [si, 0])
+        check_single(res, dp, fill(np.random.default_rng(case["rng"]), T, N, kind), W, case)
+        res.count("large_shapes")
+        res.nontriv("L-T%d-W%d-N%d" % (T, W, N))
+    if spec["part"] == 0:
+        case = dict(what="multi", W=5, N=3, Ts=[1200, 5, 3000, 777, 5, 2048], fills=["random", "negzero", "random", "nanpayload", "inf", "random"],
+                    rng=[int(v) for v in spec["seed"]] + [99])
+        check_multi(res, dp, case)
+        res.count("large_shapes")
+
+
 def run_shard(spec, res):
+    if spec["what"] == "large":
+        run_large(spec, res)
+        return
     if spec["what"] == "frontend":
         run_frontend(spec, res)
         return
@@ -248,7 +274,7 @@ def finalize(merged, tier):
     out["shape_grid_complete"] = shapes == 2952
     if shapes != 2952:
         out["inconclusive"].append("shape grid incomplete: %d of 2952" % shapes)
-    for key, least in (("frontend_reshape_runs", 12), ("tuples_with_mixed_dtypes", 50), ("earlier_results_rechecked", 5000)):
+    for key, least in (("large_shapes", 12), ("frontend_reshape_runs", 12), ("tuples_with_mixed_dtypes", 50), ("earlier_results_rechecked", 5000)):
         if merged["counters"].get(key, 0) < least:
             out["inconclusive"].append("monitor counter %s=%d below %d" % (key, merged["counters"].get(key, 0), least))
     return out
